@@ -1,5 +1,9 @@
-import LlirProofs.EncLemmas
-/-! # C11 — Names and strings are escaped losslessly and unambiguously (property theorems only) -/
+import LlirProofs.EncTokens
+/-! # C11 — Names and strings are escaped losslessly and unambiguously (property theorems only)
+
+Model: LlirModel/Enc.lean (internal/enc/enc.go, the identifier decoders of asm/helper.go, LexSpec = the token
+classes of llir/ll). After the two `fix:` commits (digit-led names are quoted; a signed number is a name) the
+    statements hold for EVERY non-empty name. -/
 namespace Llir.Props.C11
 open Llir Llir.Enc
 
@@ -10,5 +14,33 @@ theorem unescape_escape_any (valid : UInt8 → Bool) (hv : valid 92 = false) (s 
 
 theorem unescape_escapeString (s : Bytes) : unescape (escapeString s) = s :=
   Enc.unescape_escape _ validString_bs s
+
+/-- quoted strings (section, partition, gc, asm, metadata strings, source_filename, datalayout, triple, character
+    arrays): the printed literal is one string token and the parser's unquote gives back exactly the bytes -/
+theorem string_roundtrip (s : Bytes) : isStringTok (quote s) = true ∧ asmUnquote (quote s) = s := by
+  unfold quote
+  refine ⟨?_, ?_⟩
+  · exact isQuotedBody_wrap _ (escape_no_quote validString validString_not_quote s)
+  · rw [asmUnquote_quoted]; exact Enc.unescape_escape _ validString_bs s
+
+/-- global and local names: the printed identifier is ONE token of the lexer … -/
+theorem global_name_is_one_token (n : Bytes) (hne : n ≠ []) : isGlobalTok (globalName n) = true :=
+  globalName_is_token n hne
+theorem local_name_is_one_token (n : Bytes) (hne : n ≠ []) : isLocalTok (localName n) = true :=
+  localName_is_token n hne
+
+/-- … that the parser decodes to exactly the name (never to a numeric ID) … -/
+theorem global_name_decodes (n : Bytes) (hne : n ≠ []) : globalIdent (globalName n) = .ok (.name n) :=
+  globalIdent_globalName n hne
+theorem local_name_decodes (n : Bytes) (hne : n ≠ []) : localIdent (localName n) = .ok (.name n) :=
+  localIdent_localName n hne
+
+/-- … and distinct names never print alike. -/
+theorem global_names_print_differently (a b : Bytes) (ha : a ≠ []) (hb : b ≠ [])
+    (h : globalName a = globalName b) : a = b := globalName_injective a b ha hb h
+
+/-- regression witnesses of the two repaired defects: `-0` is a name again, `1abc` is quoted and one token -/
+theorem minus_zero_is_a_name : globalIdent (globalName [45, 48]) = .ok (.name [45, 48]) := Enc.minus_zero_is_a_name
+theorem digit_led_name_is_a_token : isGlobalTok (globalName [49, 97, 98, 99]) = true := Enc.digit_led_name_is_a_token
 
 end Llir.Props.C11
